@@ -159,15 +159,14 @@ Definition dom_headerb (h : header) : bool :=
 
 Fixpoint sk_consistentb (l : list payload) : bool :=
   match l with
-  | PSK n _ :: ((q :: _) as r) => (n =? ptype q) && sk_consistentb r
-  | _ :: r => sk_consistentb r
   | [] => true
+  | p :: r => (if is_psk p then isnil r else true) && sk_consistentb r
   end.
 Lemma sk_consistentb_ok l : sk_consistentb l = true -> sk_consistent l.
 Proof.
-  induction l as [|p r IH]; [intros; exact I|].
-  destruct p as [| | | | | | | | | | | | |n d| |]; cbn [sk_consistentb sk_consistent]; auto.
-  destruct r as [|q r']; [intros; exact I|]. intros H. bsplit. split; [assumption|]. now apply IH.
+  induction l as [|p r IH]; [intros; exact I|]. cbn [sk_consistentb sk_consistent]. intros H.
+  apply andb_prop in H. destruct H as [H1 H2]. split; [|now apply IH].
+  intros Hp. rewrite Hp in H1. now apply isnil_ok.
 Qed.
 
 Definition dom_msgb (m : msg) : bool :=
